@@ -65,6 +65,23 @@ def random_plain_input(rng, no, ns):
             "leafmap": {g: rng.choice(sl) for g in ol}}
 
 
+def caterpillar(leaves, left=True):
+    t = leaves[0]
+    for l in leaves[1:]:
+        t = (t, l) if left else (l, t)
+    return t
+
+
+def random_deep_input(rng, no, ns, cat_p=0.7):
+    """Plain input whose species tree is (with probability cat_p) a caterpillar: the deepest shape for its size."""
+    d = random_plain_input(rng, no, ns)
+    if rng.random() < cat_p:
+        d["st"] = caterpillar([SP_NAMES[i] for i in range(ns)], rng.random() < 0.5)
+    if rng.random() < 0.3:
+        d["ot"] = caterpillar([f"g{i}" for i in range(no)], rng.random() < 0.5)
+    return d
+
+
 def random_syntenies(rng, leaves, fams, ordered, consistent_p=0.8):
     fams = list(fams)
     out = {}
